@@ -19,6 +19,7 @@ pub fn run_any(spec: &RunSpec, opts: RunOpts) -> RunResult {
         "WA" => run_spec::<worlds::wa::WA>(spec, opts),
         "W16" => run_spec::<worlds::w16::W16>(spec, opts),
         "WZ" => run_spec::<worlds::wz::WZ>(spec, opts),
+        "WF" => run_spec::<worlds::wf::WF>(spec, opts),
         #[cfg(feature = "32_components")]
         "W32" => run_spec::<worlds::w32::W32>(spec, opts),
         other => panic!("sim: unknown world {}", other),
@@ -30,6 +31,7 @@ pub fn shape_any(name: &str) -> WorldShape {
         "WA" => shape_of::<worlds::wa::WA>(),
         "W16" => shape_of::<worlds::w16::W16>(),
         "WZ" => shape_of::<worlds::wz::WZ>(),
+        "WF" => shape_of::<worlds::wf::WF>(),
         #[cfg(feature = "32_components")]
         "W32" => shape_of::<worlds::w32::W32>(),
         other => panic!("sim: unknown world {}", other),
@@ -56,6 +58,7 @@ pub fn world_for(prop: &str, rs: u64, world_arg: Option<&str>) -> &'static str {
             "WA" => "WA",
             "W16" => "W16",
             "WZ" => "WZ",
+            "WF" => "WF",
             "W32" => "W32",
             _ => panic!("sim: unknown world"),
         };
@@ -67,34 +70,38 @@ pub fn world_for(prop: &str, rs: u64, world_arg: Option<&str>) -> &'static str {
             // forged and alien handles against every world shape, incl. the single-archetype one
             if wide && r >= 90 {
                 "W32"
-            } else if r < 74 {
+            } else if r < 70 {
                 "WA"
-            } else if r < 84 {
+            } else if r < 80 {
                 "W16"
+            } else if r < 86 {
+                "WF"
             } else {
                 "WZ"
             }
         }
         "C11" | "C07" => {
-            if wide && r >= 86 {
+            if wide && r >= 90 {
                 "W32"
-            } else if r < 88 {
+            } else if r < 78 {
                 "WA"
-            } else {
+            } else if r < 84 {
                 "W16"
+            } else {
+                "WF"
             }
         }
         _ => {
-            if wide && r >= 84 {
+            if wide && r >= 88 {
                 "W32"
-            } else if r < 76 {
+            } else if r < 70 {
                 "WA"
-            } else if r < 88 {
+            } else if r < 80 {
                 "W16"
-            } else if r < 94 {
+            } else if r < 84 {
                 "WZ"
             } else {
-                "WA"
+                "WF"
             }
         }
     }
